@@ -45,3 +45,4 @@ Print Assumptions C07_crash_waste.
 Print Assumptions C07_reachable_inv.
 Print Assumptions C07_restart_starts_at_lim.
 Print Assumptions C07_release_no_waste.
+Print Assumptions C07_refuted_release_fresh_pinned.
